@@ -1,5 +1,7 @@
 pub mod c06;
+pub mod c07;
 pub mod c10;
 pub mod c11;
 pub mod c12;
 pub mod c15;
+pub mod execq;
